@@ -45,7 +45,7 @@ def gen_cases(tier, seed):
         stmts = [st("BEGIN", "LDX", "#{TABLE}+15", "expr", ["TABLE"], True), st("", "LDY", "#{TABLE}+14", "expr", ["TABLE"], True), st("", "JMP", "{TABLE}+15", "expr", ["TABLE"], True),
                  st("", "FDB", "1,2", "fdb"), st("", "LDU", "#{BEGIN}-1", "expr", ["BEGIN"], True), st("TABLE", "RMB", "16", "rmb")]
         size = 3 + 4 + 3 + 4 + 3 + 16
-        yield {"id": "top/%d" % k2, "k": k2, "prog": {"origin": top - size + 1 - 3, "stmts": stmts, "equs": [], "name": None, "end": None, "org_label": ""}, "shifts": [1, 2, 3, -1, -0x100]}
+        yield {"id": "top/%d" % k2, "k": k2, "prog": {"origin": top - size + 1, "stmts": stmts, "equs": [], "name": None, "end": None, "org_label": ""}, "shifts": [1, 2, 3, -1, -0x100]}
     for n in (range(96, 132) if thorough else range(108, 130, 2)):
         for org in (None, 0x3000):
             stmts = [st("BUF", "RMB", str(n), "rmb"), st("", "LEAX", "{BUF},PCR", "pcr", ["BUF"]), st("", "LDA", "[{BUF},PCR]", "pcr", ["BUF"]),
@@ -135,7 +135,7 @@ def _run_case(case, ctx):
     org = p["origin"]
     top = (org or 0) + len(base.image)
     for D in (case.get("shifts") or r.sample([1, 2, 0x10, 0x100, 0x123, 0x1000, -1, -0x10, -0x100, 0x2001], 3)):
-        if org is None or org + D < 0x100 or top + D > 0xFFFF:
+        if org is None or org + D < 0x100 or top + D > 0x10000:       # top is one past the last byte
             continue
         lines2 = progs.render(p, origin=org + D)
         o2 = accepted("shift", lines2)
@@ -193,7 +193,7 @@ def _run_case(case, ctx):
     same_everything("case", progs.render(p, mncase=lambda m: "".join(c.lower() if i % 2 else c for i, c in enumerate(m))))
     # --- suffixes
     for variant in range(3):
-        if (p["origin"] or 0) + len(base.image) + 300 > 0xFFFF:
+        if (p["origin"] or 0) + len(base.image) + 300 > 0x10000:
             break                          # no room above the program: an appended statement would legitimately run past $FFFF
         suf = []
         for j in range(r.randrange(1, 6)):
